@@ -1,4 +1,5 @@
 import Cellml.Generated.Code.LoaderComps
+import Cellml.Tie.AddVars
 import Mathlib.Tactic.SplitIfs
 
 /-! # Tie: `Parser._add_components` (generated from the source) = `Load.checkComps` (what it raises), `Load.varTable`
@@ -34,7 +35,7 @@ def compsSpec (ust : Units.Store) : List CompElem → List String → List VRef 
   have __do_jp := fun (__r : Unit) =>
     have st := newComponent st name;
     do
-    let __x ← addVariables self st element
+    let __x ← Cellml.Tie.PAddVars.genAddVariables self st element
     match __x with
       | (variable_to_symbol, st__) =>
         have st := st__;
@@ -62,7 +63,7 @@ theorem ac_loop (ust : Units.Store) : ∀ (elems : List CompElem) (st : CompsSta
   | cons e r ih =>
     intro st cv
     rw [List.forIn_cons]
-    simp only [acStep, compsSpec, Py.isIn, Py.truthy_list, newComponent, addVariables]
+    simp only [acStep, compsSpec, Py.isIn, Py.truthy_list, newComponent, PAddVars.genAddVariables_leaf, addVariables]
     by_cases h1m : e.comp.name ∈ st.components
     · simp [h1m, bind, Except.bind, throw, throwThe, MonadExceptOf.throw, Err.className]
     · have h1 : st.components.contains e.comp.name = false := by simpa using h1m
